@@ -17,14 +17,19 @@ RULE = (
     "after a partial definition, a syntax error, a loop aborted by an error, "
     "and `require` of a good module (with a load marker and mutable state), "
     "a module that depends on it, a missing module, a module that fails "
-    "half-way, a syntactically broken module and a circular pair. After every "
+    "half-way, a syntactically broken module, a circular pair, and modules "
+    "found through checkerlang_module_path where each instance has its own "
+    "directory and the same module names have different contents there (one "
+    "of them fails to load in one instance only). After every "
     "command the value / error value / stdout must equal the model's; every "
     "failing command is repeated immediately and must give the same error "
     "(value and message); at the end every variable is read back in both "
     "instances. Exhaustive: all histories up to length 3 (quick) / 5 "
     "(thorough) over an 8-command core alphabet on one instance; Hypothesis: "
     "random histories up to length 30 over the full alphabet on two "
-    "instances. Non-trivial = history with a failing command followed by a "
+    "instances; exhaustive: all interleavings up to length 3 (thorough 4) of "
+    "two instances over a 5-command alphabet with the per-instance modules. "
+    "Non-trivial = history with a failing command followed by a "
     "command that reads state the failure could have touched (same variable "
     "or module), or an interleaving of two instances."
 )
@@ -33,7 +38,9 @@ ASSUMPTIONS = [
     "a module whose load fails is not cached: its top-level code runs again on "
     "the next attempt (not ruled out by the statement), so load markers are "
     "asserted 'at most once' only for modules that load successfully",
-    "user modules live in $HOME/.ckl/modules of a scratch HOME",
+    "user modules live in $HOME/.ckl/modules of a scratch HOME and in one "
+    "scratch directory per instance named by checkerlang_module_path (set "
+    "on the instance's environment, as ckl.run and ckl.repl do)",
 ]
 
 MODULES = {
@@ -48,6 +55,18 @@ MODULES = {
     "cycb": "require cyca as _a; def b() 2",
 }
 
+# modules found through checkerlang_module_path; every interpreter instance
+# gets its own directory, and the same names have different contents there
+def path_modules(who):
+    return {
+        "pathm": f"println('LOAD pathm{who}'); def origin() 'inst{who}'; "
+                 f"def only{who}() {who}",
+        "flakym": "println('LOAD flakym0'); def status() 'fine'" if who == 0
+                  else "println('LOAD flakym1'); def status() 'never'; "
+                       "error 'flk'",
+    }
+
+
 _HOME = {}
 
 
@@ -60,6 +79,12 @@ def scratch_home():
         for name, src in MODULES.items():
             with open(os.path.join(d, name + ".ckl"), "w") as f:
                 f.write(src)
+        for who in (0, 1):
+            pd = os.path.join(home, f"path{who}")
+            os.makedirs(pd)
+            for name, src in path_modules(who).items():
+                with open(os.path.join(pd, name + ".ckl"), "w") as f:
+                    f.write(src)
         _HOME[pid] = home
         import atexit
         atexit.register(lambda: shutil.rmtree(home, ignore_errors=True))
@@ -70,7 +95,8 @@ def scratch_home():
 # ------------------------------------------------------------------ the model
 
 class SessionModel:
-    def __init__(self):
+    def __init__(self, who=0):
+        self.who = who
         self.vars = {}          # name -> int | list
         self.funcs = set()      # inc{k} defined
         self.loaded = set()     # successfully loaded modules
@@ -143,6 +169,26 @@ class SessionModel:
                     out = "LOAD goodm\n"
                     self.loaded.add("goodm")
                 return ("value", [self.counter, 42], out)
+            if m == "path":
+                out = ""
+                if "pathm" not in self.loaded:
+                    out = f"LOAD pathm{self.who}\n"
+                    self.loaded.add("pathm")
+                return ("value", [f"inst{self.who}", self.who], out)
+            if m == "pathother":
+                out = ""
+                if "pathm" not in self.loaded:
+                    out = f"LOAD pathm{self.who}\n"
+                    self.loaded.add("pathm")
+                return ("error", "ERROR", out)
+            if m == "flaky":
+                if self.who == 1:
+                    return ("error", "flk", "LOAD flakym1\n")
+                out = ""
+                if "flakym" not in self.loaded:
+                    out = "LOAD flakym0\n"
+                    self.loaded.add("flakym")
+                return ("value", "fine", out)
             if m == "missing":
                 return ("error", "ERROR", "")
             if m == "broken":
@@ -154,7 +200,7 @@ class SessionModel:
         raise ValueError(cmd)
 
 
-def source(cmd):
+def source(cmd, who=0):
     op = cmd[0]
     if op == "def":
         return f"def v{cmd[1]} = {cmd[2]}"
@@ -183,6 +229,9 @@ def source(cmd):
             "good": "require goodm; goodm->bump()",
             "dep": "require depm; depm->viag()",
             "peek": "require goodm; [goodm->peek(), goodm->val()]",
+            "path": f"require pathm; [pathm->origin(), pathm->only{who}()]",
+            "pathother": f"require pathm; pathm->only{1 - who}()",
+            "flaky": "require flakym; flakym->status()",
             "missing": "require nosuchm; 1",
             "broken": "require brokem; 1",
             "syntax": "require synm; 1",
@@ -219,12 +268,18 @@ def observe(it, src):
 def run_history(history, instances=2):
     """history: list of (who, cmd).  Returns Finding or None."""
     from ckl.interpreter import Interpreter
-    scratch_home()
+    home = scratch_home()
+    from ckl.values import ValueList, ValueString
     its = [Interpreter(False, True) for _ in range(instances)]
-    models = [SessionModel() for _ in range(instances)]
+    for who, it in enumerate(its):
+        it.environment.put(       # as ckl.run and ckl.repl do
+            "checkerlang_module_path",
+            ValueList().addItem(ValueString(os.path.join(home,
+                                                         f"path{who}"))))
+    models = [SessionModel(who) for who in range(instances)]
     text = []
     for step_no, (who, cmd) in enumerate(history):
-        src = source(cmd)
+        src = source(cmd, who)
         text.append(f"[{who}] {src}")
         want = models[who].step(cmd)
         got = observe(its[who], src)
@@ -265,7 +320,8 @@ def run_history(history, instances=2):
                                    "\n  ".join(text) + f"\n  finally {n} in "
                                    f"instance {who} is {got[:2]}, model "
                                    f"{m.vars.get(n, '<undefined>')}")
-        for name in ("goodm", "depm", "brokem", "cyca", "cycb", "synm"):
+        for name in ("goodm", "depm", "brokem", "cyca", "cycb", "synm",
+                     "pathm", "flakym"):
             have = name in its[who].base_environment.modules
             if have != (name in m.loaded):
                 return Finding("C10|module-cache",
@@ -307,8 +363,9 @@ def nontrivial(history):
         for (w2, k2) in list(seen_fail):
             if w2 == who and (k2 == key or k2 is None):
                 return True
-        fails = cmd[0] in FAILING or (cmd[0] == "require" and cmd[1] in
-                                      ("missing", "broken", "syntax", "cycle"))
+        fails = cmd[0] in FAILING or (cmd[0] == "require" and (
+            cmd[1] in ("missing", "broken", "syntax", "cycle", "pathother")
+            or (cmd[1] == "flaky" and who == 1)))
         if fails:
             seen_fail[(who, key)] = i
             if cmd[0] == "partial":
@@ -335,6 +392,32 @@ def part_exhaustive(part, length, shard, nshards):
     part.exhaustive = True
 
 
+TWO = [("require", "path"), ("require", "flaky"), ("require", "good"),
+       ("def", 1, 5), ("read", 1)]
+
+
+def part_exhaustive_two(part, length, shard, nshards):
+    """All interleavings up to `length` of two instances, each with its own
+    module directory holding same-named modules with different contents."""
+    k = 0
+    alphabet = [(w, c) for w in (0, 1) for c in TWO]
+    for n in range(2, length + 1):
+        for hist in itertools.product(alphabet, repeat=n):
+            k += 1
+            if k % nshards != shard:
+                continue
+            hist = list(hist)
+            part.count()
+            if len({w for w, _ in hist}) > 1:
+                part.distinct()
+            f = run_history(hist, instances=2)
+            part.collect(f, {"history": [[w, list(c)] for w, c in hist],
+                             "instances": 2})
+    part.cls(f"two-instances-exhaustive<= {length}",
+             "; ".join(f"[{w}] {source(c, w)}" for w, c in alphabet[:4]))
+    part.exhaustive = True
+
+
 def gen_cmd(ch):
     k = ch.weighted([(3, "def"), (2, "assign"), (3, "read"), (1, "deffn"),
                      (2, "call"), (2, "partial"), (1, "syntax"), (2, "loop"),
@@ -348,7 +431,8 @@ def gen_cmd(ch):
     if k == "syntax":
         return (k,)
     return ("require", ch.choice(["good", "dep", "peek", "missing", "broken",
-                                  "syntax", "cycle", "good", "dep"]))
+                                  "syntax", "cycle", "good", "dep", "path",
+                                  "path", "flaky", "flaky", "pathother"]))
 
 
 def part_random(part, n, maxlen):
@@ -364,7 +448,7 @@ def part_random(part, n, maxlen):
         if nontrivial(hist):
             part.nontriv(repr(hist))
         part.cls("random:" + ("two-instances" if two else "one-instance"),
-                 "; ".join(f"[{w}] {source(c)}" for w, c in hist[:6]))
+                 "; ".join(f"[{w}] {source(c, w)}" for w, c in hist[:6]))
         f = run_history(hist, 2)
         if f:
             return f, {"history": [[w, list(c)] for w, c in hist],
@@ -378,9 +462,13 @@ def parts(tier, seed):
                {"length": 3, "shard": i, "nshards": 6}) for i in range(6)]
         ps += [(f"random-{i}", part_random, {"n": 60, "maxlen": 30})
                for i in range(8)]
+        ps += [(f"two3-{i}", part_exhaustive_two,
+                {"length": 3, "shard": i, "nshards": 4}) for i in range(4)]
     else:
         ps = [(f"exh5-{i}", part_exhaustive,
                {"length": 5, "shard": i, "nshards": 16}) for i in range(16)]
         ps += [(f"random-{i}", part_random, {"n": 1500, "maxlen": 30})
                for i in range(8)]
+        ps += [(f"two4-{i}", part_exhaustive_two,
+                {"length": 4, "shard": i, "nshards": 8}) for i in range(8)]
     return ps
